@@ -644,6 +644,56 @@ pub fn completion_texts() -> Vec<(String, String, usize, Vec<&'static str>, bool
     v
 }
 
+
+/// DEFAULT-CONTEXT family: the expression forms that consult the checker's context stacks (`?`, `!`, `return`,
+/// `break`, `continue`, blocks / matches / ifs / lambdas ending in them) as (part of) a DEFAULT VALUE, in every
+/// host that takes a default (typed and untyped function, lambda, extension method, impl method in and not in
+/// the interface, struct field, variant field), with operands of known Try type, unknown type and non-Try
+/// type, the host written at top level and nested in a function, a loop and a lambda.
+pub fn default_context_texts() -> Vec<(String, String)> {
+    let exprs: [(&str, &str); 26] = [
+        ("try-option", "half(8)?"), ("try-result", "res(8)?"), ("try-unknown", "nothere(8)?"), ("try-non-try", "8?"), ("try-param", "n?"),
+        ("try-nested", "half(half(8)?)?"), ("try-in-arith", "1 + half(8)?"), ("try-in-block", "{ let t = half(8)?; t }"), ("try-in-lambda", "(() -> half(8)?)()"),
+        ("try-in-call", "idf(half(8)?)"), ("try-in-match", "match half(8)? { 0 -> 1, k -> k }"), ("try-in-if", "if half(8)? > 1 { 1 } else { 2 }"),
+        ("unwrap-option", "half(8)!"), ("unwrap-unknown", "nothere(8)!"), ("unwrap-non-option", "8!"), ("unwrap-then-try", "half(half(8)!)?"),
+        ("return", "return 5"), ("block-return", "{ return 5 }"), ("match-return", "match half(8) { .some(v) -> v, .none -> return 0 }"), ("if-return", "if true { return 1 } else { 2 }"),
+        ("break", "break"), ("block-break", "{ break }"), ("continue", "{ continue }"), ("loop-with-break", "{ var s = 0; while true { s = s + 1; break }; s }"),
+        ("panic", "panic(\"no\")"), ("task", "{ task { println(1) }; 3 }"),
+    ];
+    let pre = "fn half(n: int) -> option<int> {\n  if n > 0 { option.some(n / 2) } else { option.none }\n}\nfn res(n: int) -> result<int, string> { result.ok(n) }\nfn idf(v: int) -> int { v }\n";
+    let mut v: Vec<(String, String)> = vec![];
+    for (en, e) in exprs {
+        let hosts: Vec<(&str, String, &str)> = vec![
+            ("fn", format!("fn shrink(n: int, step: int = {e}) -> int {{ n - step }}"), "shrink(9)"),
+            ("fn-option-ret", format!("fn shrink(n: int, step: int = {e}) -> option<int> {{ option.some(n - step) }}"), "shrink(9)"),
+            ("fn-untyped", format!("fn shrink(n, step = {e}) {{ n - step }}"), "shrink(9)"),
+            ("lambda", format!("let shrink = (n, step = {e}) -> n - step"), "shrink(9)"),
+            ("lambda-typed", format!("let shrink = (n: int, step: int = {e}) -> n - step"), "shrink(9, 1)"),
+            ("method", format!("extend int {{\n  fn shrink(self, step: int = {e}) -> int {{ self - step }}\n}}"), "9.shrink()"),
+            ("impl-method", format!("interface Sk {{\n  fn shrink(self: Self, step: int = 1) -> int\n}}\nimplement Sk for int {{\n  fn shrink(self, step: int = {e}) -> int {{ self - step }}\n}}"), "Sk.shrink(9)"),
+            ("impl-extra-method", format!("interface Sk {{\n  fn keep(self: Self) -> int\n}}\nimplement Sk for int {{\n  fn keep(self) -> int {{ self }}\n  fn shrink(self, step: int = {e}) -> int {{ self - step }}\n}}"), "9.keep()"),
+            ("struct-field", format!("type Sf = {{ n: int, step: int = {e} }}"), "Sf(9).step"),
+            ("variant-field", format!("type Vf = Vv(n: int, step: int = {e}) | Ww"), "Vf.Vv(9)"),
+        ];
+        for (hn, h, call) in hosts {
+            v.push((format!("defctx:{en}:{hn}:top"), format!("{pre}{h}\nlet r = {call}\n")));
+            v.push((format!("defctx:{en}:{hn}:decl-only"), format!("{pre}{h}\n")));
+            if h.starts_with("let ") {
+                // the lambda host can also be written inside other bodies
+                v.push((format!("defctx:{en}:{hn}:in-fn"), format!("{pre}fn outer(n: int) -> option<int> {{\n  {h}\n  option.some({call})\n}}\n")));
+                v.push((format!("defctx:{en}:{hn}:in-loop"), format!("{pre}while true {{\n  {h}\n  println({call})\n  break\n}}\n")));
+                v.push((format!("defctx:{en}:{hn}:in-lambda"), format!("{pre}let outer = (n: int) -> {{\n  {h}\n  {call}\n}}\n")));
+                v.push((format!("defctx:{en}:{hn}:in-task"), format!("{pre}task {{\n  {h}\n  println({call})\n}}\n")));
+            } else {
+                v.push((format!("defctx:{en}:{hn}:call-in-fn"), format!("{pre}{h}\nfn outer() -> option<int> {{\n  for i in [1, 2] {{\n    let r = {call}\n  }}\n  option.none\n}}\n")));
+            }
+        }
+        // other unusual hosts: attribute argument position does not take expressions; annotations' constraint arguments take types
+        v.push((format!("defctx:{en}:nested-default"), format!("{pre}fn outer(a: int = ((k, step = {e}) -> k - step)(1)) -> int {{ a }}\nlet r = outer()\n")));
+    }
+    v
+}
+
 /// crude token boundaries, independent of the real lexer: runs of word characters, single other characters
 pub fn crude_tokens(s: &str) -> Vec<(usize, usize)> {
     let mut v = vec![];
